@@ -939,6 +939,14 @@ class CallMixin:
             if tsrc.startswith("*."):
                 out.append(("f_" + tsrc[2:], None))
                 continue
+            if tsrc.endswith("[*][]"):
+                # the contents of every list stored as a value of this dict (the dict itself - keys, which list sits under
+                # which key - is not part of the target)
+                v = self.evs(tsrc[:-5], st, Ctx(spec=True), env)
+                if unopt(v.k).head != "dict":
+                    raise OutOfSubset("modifies target %s: not a dict" % tsrc)
+                out.append(("listsof", simp(ref(v.t))))
+                continue
             if tsrc.endswith("[]"):
                 v = self.evs(tsrc[:-2], st, Ctx(spec=True), env)
                 k = unopt(v.k)
@@ -966,12 +974,43 @@ class CallMixin:
                 continue
             if r is None:
                 self.oblige("frame[%s]/%s/%s" % (fr.label, label, comp), st, z3.BoolVal(False), line, kind="frame")
+            elif comp == "listsof":
+                # the lists held by dict r: allowed where the frame names the same dict (or every list)
+                if fr.allowed.get("list") == "*":
+                    continue
+                goal = z3.Or([z3.BoolVal(False)] + [r == a for a in al])
+                self.oblige("frame[%s]/%s/%s" % (fr.label, label, comp), st, goal, line, kind="frame")
             else:
-                goal = z3.Or([r >= fr.fresh_from] + [r == a for a in al])
+                alts = [r >= fr.fresh_from] + [r == a for a in al]
+                if comp == "list":
+                    for d in fr.allowed.get("listsof", []):
+                        k_ = bvarV("k")
+                        alts.append(z3.Exists([k_], z3.And(z3.Select(z3.Select(st.H("dhas"), d), k_),
+                                                         z3.Select(z3.Select(st.H("dval"), d), k_) == VRef(r))))
+                goal = z3.Or(alts)
                 self.oblige("frame[%s]/%s/%s" % (fr.label, label, comp), st, goal, line, kind="frame")
 
     def havoc_targets(self, st, targets):
         for comp, r in targets:
+            if comp == "listsof":
+                # every list that is a value of dict r may change; every other list keeps length and contents. K names, for
+                # a changed list, a key it is stored under
+                kf = z3.Function(fresh("hv_key", IntS).decl().name(), IntS, V)
+                q = bvar("r")
+                inD = z3.And(z3.Select(z3.Select(st.H("dhas"), r), kf(q)),
+                             z3.Select(z3.Select(st.H("dval"), r), kf(q)) == VRef(q))
+                for n in ("llen", "lel"):
+                    cur = st.H(n)
+                    new = fresh("hv_" + n, cur.sort())
+                    st.assume(z3.ForAll([q], z3.Or(z3.Select(new, q) == z3.Select(cur, q), inD),
+                                        patterns=[z3.Select(new, q)]), glob=True)
+                    f = ops.wf_refs(new, n, st.alloc)
+                    if f is not None:
+                        st.assume(f, glob=True)
+                    if n == "llen":
+                        st.assume(z3.ForAll([q], z3.Select(new, q) >= 0, patterns=[z3.Select(new, q)]), glob=True)
+                    st.heap[n] = new
+                continue
             if comp == "list":
                 names = ["llen", "lel"]
             elif comp == "set":
